@@ -153,7 +153,6 @@ func c07Optimize(w *mon.W, id string, tbl codon.Table, snap plainTable, tdesc, p
 	}
 }
 
-
 func runC07(w *mon.W) {
 	idx := 0
 	nProt := w.Pick(40, 400)
